@@ -2,6 +2,8 @@ import HpxVerif.Model.Bilinear
 import HpxVerif.Lemmas.NumReal
 import HpxVerif.Lemmas.BilinearReal
 
+set_option autoImplicit false   -- an unknown identifier in a statement is an error, never a new variable
+
 /-!
 # C19 — bilinear interpolation returns a partition of unity over the right cells
 
